@@ -781,7 +781,11 @@ func ruleDT3(c *Ctx) {
 	}
 	c.check(okLoc, fn, "parse-error-names-file-and-line", c.FnPos(rd), "a line that is not valid JSON yields an error built from the path and the line number", "the error for an unparsable line is not built from the reader's path and line counter")
 	// buffer limit and too-long conversion
-	c.check(len(callsNamed(rd, "(*bufio.Scanner).Buffer")) == 1, fn, "line-limit-set", c.FnPos(rd), "scanner buffer limit is set explicitly", "the scanner's line limit is not set (default 64 KiB would reject valid long lines)")
+	nBuf := len(callsNamed(rd, "(*bufio.Scanner).Buffer"))
+	for _, h := range c.scannerConstructorsOf(rd) {
+		nBuf += len(callsNamed(h, "(*bufio.Scanner).Buffer"))
+	}
+	c.check(nBuf == 1, fn, "line-limit-set", c.FnPos(rd), "scanner buffer limit is set explicitly", "the scanner's line limit is not set (default 64 KiB would reject valid long lines)")
 	okLong := false
 	for _, bf := range branchFacts(rd) {
 		curEnv = bf.A.Env
@@ -803,6 +807,8 @@ func ruleDT3(c *Ctx) {
 									okLong = true
 								}
 							}
+						} else if ec != nil && c.errorCtorNames(&ec.Call, pathParam) {
+							okLong = true
 						}
 					}
 				}
@@ -1974,4 +1980,30 @@ func accessorFieldNames(v ssa.Value) []string {
 	}
 	sort.Strings(out)
 	return out
+}
+
+// errorCtorNames: call is a call of a module error constructor (eventLineTooLongError(path)) every return of which is
+// a fmt.Errorf that mentions the parameter the value `what` was passed as.
+func (c *Ctx) errorCtorNames(call *ssa.CallCommon, what ssa.Value) bool {
+	h := calleeOf(call)
+	if h == nil || !c.InModule(h) || h.Blocks == nil || len(returnsOf(h)) == 0 {
+		return false
+	}
+	for _, hr := range returnsOf(h) {
+		named := false
+		if hc, _ := callOf(hr.Results[len(hr.Results)-1]); hc != nil && calleeFullName(&hc.Call) == "fmt.Errorf" {
+			for _, fa := range variadicElems(hc.Call.Args[1:]) {
+				for i, prm := range h.Params {
+					if i < len(call.Args) && (derivesFrom(fa, prm) || resolve(fa) == ssa.Value(prm)) &&
+						(derivesFrom(call.Args[i], what) || resolve(call.Args[i]) == what) {
+						named = true
+					}
+				}
+			}
+		}
+		if !named {
+			return false
+		}
+	}
+	return true
 }
